@@ -157,6 +157,9 @@ class Block:
         if name is None:
             # automatically assign name _TYPE_0, _TYPE_1, _TYPE_2, ...
             prefix = f"_{type(self).__name__}_"
+            if prefix.startswith("_ext_"):
+                # '_ext_' marks the source of external events, see ExtEvent
+                prefix = "_blk" + prefix
             cnt = sum(
                 1 for blk in self.circuit.getblocks(type(self))
                 if blk.name.startswith(prefix))
